@@ -7,6 +7,11 @@
   C07.4 (public?, algorithm) -> class table: public entries are not private classes; private entries extend their public sibling
   C07.5 private operations carry is_public=False and the precondition check runs before the action
   C07.6 the export emits only the key packet, signatures, user id/attribute packets and subkeys; block label follows the class
+  C07.7 what is attached to the public twin are faithful copies: complete (shared copy rules of C14.4 under this id), made through
+        the class of the thing copied (a container copied through another class is framed differently), not re-encoded
+
+Rules read interpreter values, path decisions as truth tables and finite scenarios (kind x algorithm for the key-material class,
+one symbolic element per attaching loop); nothing compares source text, local names or statement shapes.
 """
 import ast
 import re
